@@ -80,6 +80,12 @@ func (f *FilterData) SelectorMatch(item any) bool {
 			return false
 		}
 
+		// the selector may use another named type than the item for the same element
+		if selected := field.Elem(); selected.Type() != itemF.Elem().Type() &&
+			selected.Kind() != reflect.Struct && selected.Kind() == itemF.Elem().Kind() {
+			value = selected.Convert(itemF.Elem().Type()).Interface()
+		}
+
 		itemValue := itemF.Elem().Interface()
 		// the values may be structs containing slices or pointers
 		if !reflect.DeepEqual(itemValue, value) {
